@@ -21,6 +21,7 @@ import time
 
 from common import CORPUS
 
+CORPUS_IN_RUN = True     # run() replays corpus/C19/*.json itself (per part), see _corpus
 PARTS = ["c19_tmpl", "c19_cp2k", "c19_codec", "c19_lmp"]
 MISSING: list = []
 
